@@ -27,10 +27,17 @@ ASSUMPTIONS = ["with duplicated designs only designs (not representatives) are c
 def fronts(draw):
     m = draw(st.integers(1, 4))
     n = draw(st.integers(0, 15))
-    kind = draw(st.sampled_from(["tiefree", "tiefree", "grid", "zero-range"]))
+    kind = draw(st.sampled_from(["tiefree", "tiefree", "grid", "zero-range", "offset"]))
     rows = [[0.0] * m for _ in range(n)]
     for k in range(m):
-        if kind == "tiefree" or (kind == "zero-range" and k > 0):
+        if kind == "offset":
+            # tie-free, but the spread is tiny compared with the magnitude (a mass of 1000 kg varying by grams)
+            base = draw(st.sampled_from([1000.0, 2.4e9, -5e4, 1.0]))
+            steps = draw(st.lists(st.integers(1, 10 ** 6), min_size=n, max_size=n, unique=True))
+            vals = [base + st_ * abs(base) * 1e-9 for st_ in steps]
+            if len(set(vals)) != n:
+                vals = [base + j for j in range(n)]
+        elif kind == "tiefree" or (kind == "zero-range" and k > 0):
             vals = draw(st.lists(st.one_of(st.integers(-50, 50).map(float),
                                            st.floats(-1e3, 1e3, allow_nan=False).map(lambda x: round(x, 3))),
                                  min_size=n, max_size=n, unique=True))
@@ -101,7 +108,8 @@ coordv = st.sampled_from([-2.0, -1.0, 0.0, 1.0, 2.0, 0.5, 3.0])
 def ranked_population(draw):
     dim = draw(st.integers(1, 3))
     m = draw(st.sampled_from([1, 2, 2, 3]))
-    cost_mode = draw(st.sampled_from(["grid", "layers", "layers"]))
+    cost_mode = draw(st.sampled_from(["grid", "layers", "layers", "plateau"]))
+    plateau = [[float(draw(st.integers(0, 3))) for _ in range(m)] for _ in range(3)]
     npool = draw(st.integers(1, 12))
     pool = []
     seen = set()
@@ -119,7 +127,10 @@ def ranked_population(draw):
         if tuple(v) in seen:
             continue
         seen.add(tuple(v))
-        if cost_mode == "layers" and m >= 2:   # antichains a + b = 6 stacked in layers: fronts with many members
+        if cost_mode == "plateau":
+            # several distinct designs share exactly the same costs (an insensitive parameter, a symmetric objective)
+            costs = list(plateau[draw(st.integers(0, 2))])
+        elif cost_mode == "layers" and m >= 2:   # antichains a + b = 6 stacked in layers: fronts with many members
             a = draw(st.integers(0, 12)) / 2.0
             layer = draw(st.integers(0, 2))
             costs = [a + layer, 6.0 - a + layer] + [float(layer)] * (m - 2)
@@ -140,7 +151,7 @@ def ranked_population(draw):
 def check_truncate(case):
     from artap.individual import Individual
     from artap.operators import TournamentSelector, nondominated_truncate
-    pool, seq, k = case["pool"], case["seq"], case["k"]
+    pool, seq = case["pool"], case["seq"]
     with guard("truncate"):
         sel = TournamentSelector(params([(0.0, 1.0)] * len(pool[0]["v"])))
         pop = []
@@ -151,45 +162,56 @@ def check_truncate(case):
         sel.fast_nondominated_sorting(pop)
         fronts_ = {id(p): p.features["front_number"] for p in pop}
         crowd = {id(p): p.features["crowding_distance"] for p in pop}
-        res = nondominated_truncate(list(pop), k)
     design = {id(p): seq[j] for j, p in enumerate(pop)}
-    if any(id(r) not in design for r in res):
-        raise Violation("truncate", "foreign-object", "truncate returned an object that was not in the population")
     distinct = sorted(set(seq))
-    kept = [design[id(r)] for r in res]
-    if len(res) != min(k, len(distinct)):
-        raise Violation("truncate", "size", "k=%d, %d distinct designs (of %d members) -> %d returned; designs %r" % (
-            k, len(distinct), len(seq), len(res), [pool[i]["v"] for i in seq]))
-    if len(set(kept)) != len(kept):
-        raise Violation("truncate", "design-twice", "a design was returned twice: %r" % ([pool[i]["v"] for i in kept],))
-    discarded = [d for d in distinct if d not in kept]
     front_of = {}
     for j, p in enumerate(pop):
         front_of[seq[j]] = fronts_[id(p)]     # same costs => same front for all representatives
-    cut = None
-    if discarded:
-        worst_kept = max(front_of[d] for d in kept)
-        best_disc = min(front_of[d] for d in discarded)
-        if worst_kept > best_disc:
-            raise Violation("truncate", "rank-order", "kept a design of front %d while discarding one of front %d "
-                            "(k=%d, fronts %r)" % (worst_kept, best_disc, k, [front_of[i] for i in seq]))
-        for d in discarded:
-            for s in kept:
-                if O.verdict(pool[d]["c"] + [pool[d]["mk"]], pool[s]["c"] + [pool[s]["mk"]]) == 1:
-                    raise Violation("truncate", "survivor-dominated", "survivor %r is dominated by discarded %r" % (
-                        pool[s], pool[d]))
-        if worst_kept == best_disc:
-            cut = worst_kept
-        if len(distinct) == len(seq) and worst_kept == best_disc:
-            ck = [crowd[id(r)] for r in res if fronts_[id(r)] == cut]
-            cd = [crowd[id(p)] for p in pop if fronts_[id(p)] == cut and all(p is not r for r in res)]
-            if ck and cd and max(cd) > min(ck):
-                raise Violation("truncate", "crowding-order", "in the cut front %d a discarded member has crowding %r "
-                                "> kept member %r" % (cut, max(cd), min(ck)))
-    cut_size = sum(1 for d in distinct if cut is not None and front_of[d] == cut)
-    return {"nt": cut is not None and cut_size >= 3,
-            "classes": ["dups" if len(distinct) < len(seq) else "distinct", "cuts-front" if cut else "no-cut",
-                        "k>=n" if k >= len(distinct) else "k<n"]}
+    nt = False
+    classes = set()
+    # every truncation size is tried on the same ranked population (the drawn k first, so that it shrinks well)
+    for k in [case["k"]] + [x for x in range(1, len(seq) + 3) if x != case["k"]]:
+        with guard("truncate"):
+            res = nondominated_truncate(list(pop), k)
+        if any(id(r) not in design for r in res):
+            raise Violation("truncate", "foreign-object", "truncate returned an object that was not in the population")
+        kept = [design[id(r)] for r in res]
+        if len(res) != min(k, len(distinct)):
+            raise Violation("truncate", "size", "k=%d, %d distinct designs (of %d members) -> %d returned; designs %r" % (
+                k, len(distinct), len(seq), len(res), [pool[i]["v"] for i in seq]))
+        if len(set(kept)) != len(kept):
+            raise Violation("truncate", "design-twice", "a design was returned twice: %r" % (
+                [pool[i]["v"] for i in kept],))
+        discarded = [d for d in distinct if d not in kept]
+        cut = None
+        if discarded:
+            worst_kept = max(front_of[d] for d in kept)
+            best_disc = min(front_of[d] for d in discarded)
+            if worst_kept > best_disc:
+                raise Violation("truncate", "rank-order", "kept a design of front %d while discarding one of front %d "
+                                "(k=%d, fronts %r, crowding %r)" % (worst_kept, best_disc, k, [front_of[i] for i in seq],
+                                                                    [crowd[id(p)] for p in pop]))
+            for d in discarded:
+                for s_ in kept:
+                    if O.verdict(pool[d]["c"] + [pool[d]["mk"]], pool[s_]["c"] + [pool[s_]["mk"]]) == 1:
+                        raise Violation("truncate", "survivor-dominated", "survivor %r is dominated by discarded %r" % (
+                            pool[s_], pool[d]))
+            if worst_kept == best_disc:
+                cut = worst_kept
+            if len(distinct) == len(seq) and worst_kept == best_disc:
+                ck = [crowd[id(r)] for r in res if fronts_[id(r)] == cut]
+                cd = [crowd[id(p)] for p in pop if fronts_[id(p)] == cut and all(p is not r for r in res)]
+                if ck and cd and max(cd) > min(ck):
+                    raise Violation("truncate", "crowding-order", "in the cut front %d a discarded member has crowding %r "
+                                    "> kept member %r (k=%d)" % (cut, max(cd), min(ck), k))
+            else:
+                classes.add("cut-at-front-boundary")
+        cut_size = sum(1 for d in distinct if cut is not None and front_of[d] == cut)
+        if cut is not None and cut_size >= 3:
+            nt = True
+        classes.add("cuts-front" if cut else "no-cut")
+    classes.add("dups" if len(distinct) < len(seq) else "distinct")
+    return {"nt": nt, "classes": sorted(classes)}
 
 
 # ---------------------------------------------------------------- tournament
